@@ -61,6 +61,21 @@ Proof.
   apply find_blocks_fuel_enough; cbn [length]; lia.
 Qed.
 Lemma find_blocks_nil : find_blocks [] = []. Proof. reflexivity. Qed.
+(** a string of any number of blocks "{b1}.{b2}. ... .{bn}" *)
+Definition block_of (body : pystr) : pystr := "{"%char :: body ++ ["}"%char].
+Fixpoint dotted (bs : list pystr) : pystr :=
+  match bs with [] => [] | [b] => b | b :: r => b ++ "."%char :: dotted r end.
+Theorem find_blocks_dotted bodies : Forall (fun body => body <> [] /\ ~ In "}"%char body) bodies ->
+  find_blocks (dotted (map block_of bodies)) = map block_of bodies.
+Proof.
+  induction bodies as [|b r IH]; intros F; [reflexivity|]. inversion F as [|? ? [Hne Hno] Fr]; subst.
+  destruct r as [|b' r'].
+  - cbn [map dotted]. unfold block_of. change ("{"%char :: b ++ ["}"%char]) with ("{"%char :: b ++ "}"%char :: []).
+    now rewrite (find_blocks_cons b [] Hne Hno).
+  - change (dotted (map block_of (b :: b' :: r'))) with (block_of b ++ "."%char :: dotted (map block_of (b' :: r'))).
+    unfold block_of at 1. cbn [app]. rewrite <- app_assoc. cbn [app].
+    rewrite (find_blocks_cons b _ Hne Hno), find_blocks_skip by discriminate. rewrite (IH Fr). reflexivity.
+Qed.
 
 Section Driver.
   Variable read_cgsmiles : pystr -> res graph.
@@ -148,6 +163,21 @@ Section Driver.
     apply (driver_fragment_error _ laa legacy trs ("{"%char :: body ++ ["}"%char]) mol [] ("{"%char :: fbody ++ ["}"%char]) [] e); auto.
     rewrite (find_blocks_cons body _ Hne Hno), find_blocks_skip by discriminate.
     now rewrite (find_blocks_cons fbody [] Fne Fno).
+  Qed.
+  (** ... any number of blocks: the base block is read, the fragment blocks before the k-th are read, the k-th is refused *)
+  Theorem driver_blocks_fragment_error body preB fb postB laa legacy trs mol e :
+    Forall (fun b => b <> [] /\ ~ In "}"%char b) (body :: preB ++ fb :: postB) ->
+    read_cgsmiles (block_of body) = Ok mol ->
+    Forall (fun b => exists d, read_fragments (block_of b) false = Ok d) preB ->
+    read_fragments (block_of fb) (aa_flag (map block_of postB) laa) = Err e ->
+    drive (dotted (map block_of (body :: preB ++ fb :: postB))) laa legacy trs = Err e.
+  Proof.
+    intros F Hm FB He.
+    apply (driver_fragment_error _ laa legacy trs (block_of body) mol (map block_of preB) (block_of fb) (map block_of postB) e).
+    - rewrite (find_blocks_dotted _ F). cbn [map]. now rewrite map_app.
+    - exact Hm.
+    - rewrite Forall_map. exact FB.
+    - exact He.
   Qed.
 End Driver.
 
